@@ -14,6 +14,9 @@ CLAIMED = {
  'C13': dict(engine='symexec', technique='bounded symbolic execution of the real add_constant_signal and add_signal in one run with f_start, drift_rate, level, width as free reals; forks on box indices / sub-step count with completeness query; SMT decides helper == general per pixel',
              text='For every shape/geometry/profile/smearing combination in the stated set and EVERY real (f_start, drift, level, width) in the stated ranges, z3 shows the helper equals general injection of the linear path (with max(1, ceil(|drift|/unit)) smearing sub-steps) on the support of compact profiles and inside the FWHM track of tailed ones, and is general-or-zero elsewhere.',
              note='concrete dyadic geometries; shapes <= 4x10; exp/sinc/wofz uninterpreted; exact reals', ref='DESIGN.md section 4 C13'),
+ 'C05': dict(engine='symexec', technique='bounded symbolic execution of the real Frame constructors and index/frequency converters over z3 terms: exact reals for the grid structure, rounded-real (delta) model of binary64 for rounding claims; SMT decides each obligation',
+             text='For shapes up to 8x8 and every construction route, z3 shows (unsat) that no real df>0, dt>0, fch1 makes fs/ts/ts_ext/fmin/fmax/fmid/t_stop/obs_length/unit and two-index drift rates deviate from the uniform grid; index->frequency->index is the identity for every integer (decomposed into three lemmas) and, in the delta model of binary64, for fch1/df <= 1e12 and j <= 2^24; nearest-channel and in-band claims for every real frequency on dyadic geometries; opposite orientation flags give identical axes and injected data.',
+             note='linspace/arange by their documented formulas; delta model |d|<=2^-53 per operation within stated ranges; sat answers of the delta model are candidates concretised by the replayer', ref='DESIGN.md section 4 C05'),
 }
 NA = {}
 
